@@ -22,7 +22,8 @@ pub struct Case {
 }
 
 /// Scans the pool for the key of every judged party.  Returns a description of the first hit.
-pub fn scan(res: &RunResult<Vec<bool>>, judged: &[usize], three: bool) -> Result<(usize, usize), (String, String)> {
+pub fn scan(res: &RunResult<Vec<bool>>, judged: &[usize], three: bool) -> (usize, usize, Vec<(String, String)>) {
+    let mut hits: Vec<(String, String)> = vec![];
     // pool bytes: everything anyone put on the wire + the evaluator's labels
     let mut windows: HashSet<[u8; 16]> = HashSet::new();
     let mut total_bytes = 0usize;
@@ -60,7 +61,7 @@ pub fn scan(res: &RunResult<Vec<bool>>, judged: &[usize], three: bool) -> Result
         let Some(delta) = res.probes.iter().find(|p| p.site == "delta" && p.party == party).map(|p| p.val) else { continue };
         for (order, target) in [("little-endian", delta.to_le_bytes()), ("big-endian", delta.to_be_bytes())] {
             if windows.contains(&target) {
-                return Err(("key".into(), format!("the global key of party {party} appears in the pool ({order})")));
+                hits.push(("key".into(), format!("the global key of party {party} appears in the pool ({order})")));
             }
             for w in &originals {
                 let x: [u8; 16] = std::array::from_fn(|i| w[i] ^ target[i]);
@@ -75,7 +76,10 @@ pub fn scan(res: &RunResult<Vec<bool>>, judged: &[usize], three: bool) -> Result
                     let (a, b) = (find(w), find(&x));
                     let mut names = [name(a), name(b)];
                     names.sort();
-                    return Err((format!("xor2|{}+{}", names[0], names[1]), format!("two 16-byte values in the pool XOR to the global key of party {party}: one in {}, the other in {}", desc(a), desc(b))));
+                    let sig = format!("xor2|{}+{}", names[0], names[1]);
+                    if !hits.iter().any(|h| h.0 == sig) {
+                        hits.push((sig, format!("two 16-byte values in the pool XOR to the global key of party {party}: one in {}, the other in {}", desc(a), desc(b))));
+                    }
                 }
             }
         }
@@ -84,25 +88,33 @@ pub fn scan(res: &RunResult<Vec<bool>>, judged: &[usize], three: bool) -> Result
                 for j in i + 1..fields.len() {
                     let t = fields[i] ^ fields[j] ^ delta;
                     if t != fields[i] && t != fields[j] && fset.contains(&t) {
-                        return Err(("xor3".into(), format!("three decoded 128-bit fields XOR to the global key of party {party}")));
+                        if !hits.iter().any(|h| h.0 == "xor3") {
+                            hits.push(("xor3".into(), format!("three decoded 128-bit fields XOR to the global key of party {party}")));
+                        }
                     }
                 }
             }
         }
     }
-    Ok((total_bytes, fields.len()))
+    (total_bytes, fields.len(), hits)
 }
 
-pub fn test_case(c: &Case) -> Result<CaseInfo, Fail> {
+pub fn test_case(c: &Case, ctx: Option<&Ctx>) -> Result<CaseInfo, Fail> {
     let run = run_attack(&c.attack, &ExecCfg { record_probes: true, step_budget: 600_000 });
     let n = c.attack.base.n();
     let judged: Vec<usize> = if c.honest_only { (0..n).collect() } else { c.attack.honest_parties() };
-    let (bytes, nfields) = scan(&run.res, &judged, c.three_subsets).map_err(|(sig, e)| {
-        Fail::new(
+    let (bytes, nfields, hits) = scan(&run.res, &judged, c.three_subsets);
+    for (sig, e) in hits {
+        let f = Fail::new(
             format!("C07|{sig}"),
             format!("{e}; run: n={n} corrupt={} origin={} faults={:?} taps={:?}", if c.honest_only { "none".to_string() } else { c.attack.corrupt.to_string() }, c.origin, c.attack.faults, c.attack.taps),
-        )
-    })?;
+        );
+        // a listed finding is counted and the scan of this run continues with the other hits
+        match ctx {
+            Some(ctx) if ctx.is_known(&f) => ctx.count_class(&format!("known:{}", f.signature)),
+            _ => return Err(f),
+        }
+    }
     let sent_keyed = run.res.msgs.iter().any(|m| judged.contains(&m.from) && (m.label == "fabitn" || m.label == "KOS_OT_corr"));
     Ok(CaseInfo {
         nontrivial: sent_keyed.then(|| hash_of(&(serde_json::to_string(&c.attack).unwrap(), run.res.trace_hash))),
@@ -121,7 +133,7 @@ pub fn run(tier: Tier, seed: u64) -> i32 {
     let counter = std::sync::atomic::AtomicUsize::new(0);
     prop_search(&ctx, "honest", tier.pick(64, 800), || gen_case(cp.clone()), |base: &MpcCase| {
         let k = counter.fetch_add(1, std::sync::atomic::Ordering::Relaxed);
-        test_case(&Case { attack: AttackCase::honest(base.clone(), 0), honest_only: true, three_subsets: base.n() == 2 && k % 2 == 0, origin: "honest".into() })
+        test_case(&Case { attack: AttackCase::honest(base.clone(), 0), honest_only: true, three_subsets: base.n() == 2 && k % 2 == 0, origin: "honest".into() }, Some(&ctx))
     });
     // (ii) deviations
     if !ctx.stopped() {
@@ -152,11 +164,11 @@ pub fn run(tier: Tier, seed: u64) -> i32 {
             }
         }
         ctx.extra("enumerated_deviations", json!(cases.len()));
-        enumerate(&ctx, &cases, test_case);
+        enumerate(&ctx, &cases, |c| test_case(c, Some(&ctx)));
     }
     ctx.finish()
 }
 
 pub fn replay(path: &str) -> i32 {
-    crate::fw::replay_case::<Case, _>("C07", path, 4, test_case)
+    crate::fw::replay_case::<Case, _>("C07", path, 4, |c| test_case(c, None))
 }
